@@ -113,7 +113,8 @@ class MpStudyEngine(EngineBase):
             stats['on_item_done'] = on_item_done
 
             kwargs = dict(verbose=plan.get('verbose', False), max_procs=plan.get('max_procs'),
-                          perform_memory_check=plan.get('memcheck', True), avoid_crashes=plan.get('avoid_crashes', True))
+                          perform_memory_check=plan.get('memcheck', True),
+                          avoid_crashes=att.get('avoid_crashes', plan.get('avoid_crashes', True)))
             if j > 0 or not plan.get('first_force_restart', True):
                 kwargs['force_restart'] = False
             if plan.get('postprocess'):
